@@ -3,7 +3,7 @@
    oracle    : the Spec-layer judgement of a property on the IMPLEMENTATION's observations. *)
 From Coq Require Import NArith List.
 From ACPI Require Import Lib.Bytes Lib.Sx Impl.Checksum Spec.ChecksumS Impl.AmlCore Spec.AmlCoreS Spec.Layout
-  Impl.AmlTerm Spec.AmlTermS.
+  Impl.AmlTerm Spec.AmlTermS Spec.SelfCheck.
 From ACPI Require Import Impl.Xsdt Impl.Mcfg Impl.Madt Impl.Srat Impl.Slit Impl.Hmat Impl.Pptt Impl.Rhct Impl.Rimt
   Impl.Viot Impl.Cedt Impl.Hest Impl.Rqsc Impl.Tpm2 Impl.Fadt Impl.Bert Impl.Spcr Impl.Facs Impl.Rsdp Impl.Sdt Impl.Misc.
 From ACPI Require Import Spec.XsdtS Spec.McfgS Spec.MadtS Spec.SratS Spec.SlitS Spec.HmatS Spec.PpttS Spec.RhctS Spec.RimtS
@@ -106,6 +106,22 @@ Definition c07_frame_oracle (c : sx) (impl : list ev) : bool :=
   | _ => true
   end.
 
+(* C03, per-entry part (Spec/SelfCheck.v): on EVERY observed image, whether or not the Spec has a reference image for the
+   history, the walk from the table's first-entry offset lands on the end and every entry found is consistent with itself.
+   The only observations exempt are those the HEST protocol defines as showing a stand-alone error structure instead of
+   the table (after an op 20 / 21, see Spec/HestS.v). *)
+Definition c03_self (comp : N) (img : list N) : bool := c03_self_at (ts_walk (spec_of comp)) comp img.
+
+Definition c03_full_oracle (comp : N) (c : sx) (evs : list ev) : bool :=
+  match case_parts c with
+  | None => false
+  | Some (ctor, ops) =>
+      judge_history (ts_returns (spec_of comp))
+        (fun img prefix => c03_judge (spec_of comp) ctor img prefix
+                           && (if (comp =? 21) && shows_alone prefix then true else c03_self comp img))
+        (fun _ _ => true) [] ops evs []
+  end.
+
 (* C03 for the two variable-body tables outside the generic walk: the RQSC's nested controller / resource walk
    (Spec/RqscWalkS.v) and the SLIT's count-and-matrix shape (Spec/SlitShapeS.v), judged at every observation *)
 Definition c03_extra_oracle (comp : N) (c : sx) (impl : list ev) : bool :=
@@ -123,7 +139,7 @@ Definition oracle (prop comp : N) (c : sx) (impl : list ev) : bool :=
     match prop with
     | 1 => c01_table_oracle comp c impl
     | 2 => c02_table_oracle comp c impl
-    | 3 => c03_oracle (spec_of comp) c impl && c03_extra_oracle comp c impl
+    | 3 => c03_full_oracle comp c impl && c03_extra_oracle comp c impl
     | 4 | 11 => c04_oracle (spec_of comp) c impl
     | 5 => c05_oracle (spec_of comp) c impl
     | 12 => c04_oracle (spec_of comp) c impl && c01_table_oracle comp c impl
